@@ -121,7 +121,10 @@
 //!
 //! [MDC]: https://crates.io/crates/log-mdc
 
-use chrono::{Local, Utc};
+use chrono::{
+    format::{Item, StrftimeItems},
+    Local, Utc,
+};
 use derivative::Derivative;
 use log::{Level, Record};
 use std::{default::Default, io, process, thread};
@@ -410,6 +413,12 @@ impl<'a> From<Piece<'a>> for Chunk {
                         }
                         None => "%+".to_owned(),
                     };
+
+                    // An invalid directive would only surface when a record is formatted, as a
+                    // formatting error that the writer machinery turns into a panic.
+                    if StrftimeItems::new(&format).any(|item| matches!(item, Item::Error)) {
+                        return Chunk::Error(format!("invalid date format `{}`", format));
+                    }
 
                     let timezone = match formatter.args.get(1) {
                         Some(arg) => {
